@@ -102,7 +102,7 @@ func cmdCheck() int {
 	}
 	replayDir := filepath.Join(*verifDir, "replays")
 	_ = os.MkdirAll(replayDir, 0o755)
-	evPath := filepath.Join(*verifDir, "evidence", prop+".json")
+	evPath := filepath.Join(*verifDir, "evidence", prop+".json"+os.Getenv("VERIF_EVIDENCE_SUFFIX"))
 	_ = os.MkdirAll(filepath.Dir(evPath), 0o755)
 
 	var viols []violation
@@ -172,6 +172,8 @@ func cmdCheck() int {
 		trusted       = map[string]string{}
 		abstractions  = map[string][]string{}
 		havocked      = map[string]bool{}
+		marks         = map[string]int{}
+		assumedPre    = map[string]string{}
 		inlined       = map[string]bool{}
 		effFree       = map[string]bool{}
 		axioms        = map[string]bool{}
@@ -208,6 +210,12 @@ func cmdCheck() int {
 			}
 			for k := range r.enc.usedHavoc {
 				havocked[k] = true
+			}
+			for k, n := range r.enc.usedMarks {
+				marks[k] = n
+			}
+			for k, v := range r.enc.assumedPre {
+				assumedPre[shortFunc(r.spec.Name)+" -> "+k] = v
 			}
 			for k := range r.enc.usedInline {
 				inlined[k] = true
@@ -264,7 +272,7 @@ func cmdCheck() int {
 				if len(tail) > 6 {
 					tail = tail[len(tail)-6:]
 				}
-				samples = append(samples, map[string]interface{}{"obligation": o.Name, "clause": o.Src, "at": fmt.Sprintf("%s:%d", shortFunc(o.Pos.Filename), o.Pos.Line), "smt_bytes": len(q), "smt_tail": tail, "backend": o.Backend})
+				samples = append(samples, map[string]interface{}{"obligation": o.Name, "clause": o.src(), "at": fmt.Sprintf("%s:%d", shortFunc(o.Pos.Filename), o.Pos.Line), "smt_bytes": len(q), "smt_tail": tail, "backend": o.Backend})
 			}
 			if o.Result == "unsat" {
 				nDis++
@@ -281,12 +289,12 @@ func cmdCheck() int {
 			}
 			if o.Result == "sat" {
 				rp := writeReplay(replayDir, prop, r, o)
-				viols = append(viols, violation{Obligation: o.Name, Reason: "refuted: " + o.Src, Replay: rp.path, NoInput: !rp.failedOnReal})
+				viols = append(viols, violation{Obligation: o.Name, Reason: "refuted: " + o.src(), Replay: rp.path, NoInput: !rp.failedOnReal})
 				continue
 			}
 			if baseline == nil || baseline[o.Name] {
 				rp := writeReplay(replayDir, prop, r, o)
-				viols = append(viols, violation{Obligation: o.Name, Reason: "no longer discharged (" + o.Result + "): " + o.Src, Replay: rp.path, NoInput: true})
+				viols = append(viols, violation{Obligation: o.Name, Reason: "no longer discharged (" + o.Result + "): " + o.src(), Replay: rp.path, NoInput: true})
 				continue
 			}
 			undecided = append(undecided, o.Name)
@@ -361,6 +369,8 @@ func cmdCheck() int {
 		"abstractions":             abstractions,
 		"callees_havocked":         keysOf(havocked),
 		"callees_inlined":          keysOf(inlined),
+		"typestate_marks_assumed":  marks,
+		"callee_preconditions_assumed": assumedPre,
 		"callees_effectfree":       keysOf(effFree),
 		"axioms":                   keysOf(axioms),
 		"assume_count":             assumeCount,
